@@ -24,9 +24,11 @@ PART = {
     },
     "C07": {
         "runs": [{"name": "daemonnet", "pkg": PKG["core"], "run": "^TestVF_C07$", "timeout": "25m", "timeout_thorough": "90m"}],
-        "rule": "end-to-end scenarios on real daemons, one child process each: same-set reshare (threshold +1 when admissible), add 1 + remove 1, and a failed "
-                "(abort | proposal timeout | execution with all kyber traffic dropped) reshare followed by a successful one; quick 3 cases with scheme/variant from the case seed, "
-                "thorough 5 schemes x 5 x 2 repetitions. An evaluation = one round first stored anywhere (verified under the ORIGINAL public key at every node's base store, cross-node agreement, per-node "
+        "rule": "end-to-end scenarios on real daemons, one child process each: same-set reshare (threshold +1 when admissible), add 1 + remove 1, a failed "
+                "(abort | proposal timeout | execution with all kyber traffic dropped) reshare followed by a successful one, and two reshares that the DKG layer completes but core must refuse "
+                "(refused-period: the leader's dkg.db was edited to another beacon period, every member refuses; refused-late: one member's completion notification is parked at the "
+                "dkgstore.savefinished.after hook until the transition time has passed) after which ChainInfo of the refusing members, their group/share files (hashes) and the ChainInfo of a daemon "
+                "restarted on such a folder must be what they were; quick 5 cases with scheme/variant from the case seed, thorough 5 schemes x (5 x 2 repetitions + 2). An evaluation = one round first stored anywhere (verified under the ORIGINAL public key at every node's base store, cross-node agreement, per-node "
                 "gap-freedom), one ChainInfo answer compared field by field with the pre-reshare answer, or one bounded-progress checkpoint; non-trivial = rounds within +-3 of the "
                 "transition round, identity comparisons and progress checkpoints; distinct by (scenario, variant, offset to the transition | checkpoint).",
         "assumptions": [
